@@ -4361,7 +4361,8 @@ def _dSIR_compact_effective_degree_(X, t, N, tau, gamma):
     R, SI = X[-2:]
     I = N- R- Skappa.sum()
     kappas = np.arange(len(Skappa))
-    effectiveI = float(SI) /Skappa.dot(kappas)
+    SX = Skappa.dot(kappas)
+    effectiveI = float(SI)/SX if SX != 0 else 0. #no S node has an S or I neighbor
     dSkappa = effectiveI*(-(tau+gamma)*kappas*Skappa \
                 + gamma*shift(kappas*Skappa,-1))
     dSI = -(tau+gamma)*SI \
